@@ -44,11 +44,12 @@ func endAdapter(ad tq.Adapter) {
 
 // agentMain: `lfsverif custom-agent`. VERIF_AGENT_SCRIPT names a file whose first line is the comma
 // separated list of messages to answer the (single) download request with:
-//   p/<oidok>              progress
-//   c/<oidok>/<err>/<path> complete (path "none": a path that does not exist)
-//   o                      a message with another event name
-//   u                      a line that is not JSON
-//   e                      exit without a word
+//
+//	p/<oidok>              progress
+//	c/<oidok>/<err>/<path> complete (path "none": a path that does not exist)
+//	o                      a message with another event name
+//	u                      a line that is not JSON
+//	e                      exit without a word
 func agentMain() {
 	in := bufio.NewReader(os.Stdin)
 	out := bufio.NewWriter(os.Stdout)
@@ -173,7 +174,9 @@ func pktReadRequest(r *bufio.Reader) ([]string, error) {
 }
 
 // sshServerMain: `lfsverif ssh-server <ssh args...>`. VERIF_SSH_SCRIPT names a file with one line
-//   <conn 0|1> <status> <size args: comma list of numbers or `bad`, or -> <data file or -> <readerr 0|1>
+//
+//	<conn 0|1> <status> <size args: comma list of numbers or `bad`, or -> <data file or -> <readerr 0|1>
+//
 // that answers the first get-object request.
 func sshServerMain() {
 	in := bufio.NewReader(os.Stdin)
@@ -562,7 +565,7 @@ func c02SSH(c *Ctx, r *Rng) {
 
 // c02Concurrent: several real git-lfs processes fetch the same objects at once.
 func c02Concurrent(c *Ctx, r *Rng) {
-	n := c.N(14, 250)
+	n := c.N(20, 250)
 	for i := 0; i < n; i++ {
 		c02ConcurrentOne(c, r.Fork(), i)
 	}
@@ -599,13 +602,25 @@ func c02ConcurrentOne(c *Ctx, r *Rng, idx int) {
 	var gets int64
 	cutFirst := int64(r.Intn(4)) // that many storage GETs are cut half way
 	stall := time.Duration(Pick(r, []int{0, 1, 3})) * time.Millisecond
+	// staged: the first storage GET delivers half of the object and then waits until another GET (of a
+	// process started meanwhile) has come and gone; that other answer may ignore the Range header and be cut
+	// after a few bytes — whatever the later process does to files it found must not reach the earlier one's
+	staged := nobj == 1 && r.Chance(75)
+	rangeMode := Pick(r, []string{"honour", "honour", "ignore"})
+	cutEarlyOthers := staged && r.Chance(60)
+	firstHalf := make(chan struct{})
+	otherDone := make(chan struct{})
+	var onceHalf, onceOther sync.Once
 	srv.slowGet = func(rw http.ResponseWriter, rq *http.Request, b []byte) {
 		k := atomic.AddInt64(&gets, 1)
+		if k > 1 {
+			defer onceOther.Do(func() { close(otherDone) })
+		}
 		from := 0
 		if rg := rq.Header.Get("Range"); strings.HasPrefix(rg, "bytes=") {
 			fmt.Sscanf(rg, "bytes=%d-", &from)
 		}
-		if from > len(b) {
+		if from > len(b) || rangeMode == "ignore" {
 			from = 0
 		}
 		body := b[from:]
@@ -625,7 +640,14 @@ func c02ConcurrentOne(c *Ctx, r *Rng, idx int) {
 			if end > len(body) {
 				end = len(body)
 			}
-			if k <= cutFirst && off >= len(body)/2 {
+			if staged && k == 1 && off >= len(body)/2 {
+				onceHalf.Do(func() { close(firstHalf) })
+				select {
+				case <-otherDone:
+				case <-time.After(1500 * time.Millisecond):
+				}
+			}
+			if (k <= cutFirst && off >= len(body)/2 && !(staged && k == 1)) || (cutEarlyOthers && k == 2 && off > 0) {
 				if hj, ok := rw.(http.Hijacker); ok {
 					conn, _, _ := hj.Hijack()
 					if tc, ok := conn.(*net.TCPConn); ok {
@@ -673,12 +695,22 @@ func c02ConcurrentOne(c *Ctx, r *Rng, idx int) {
 	}
 	codes := make([]int, nproc)
 	outs := make([]string, nproc)
+	delays := make([]int, nproc)
+	for p := range delays {
+		delays[p] = r.Intn(3) // drawn here: the processes' goroutines must not share the generator
+	}
 	var wg sync.WaitGroup
 	for p := 0; p < nproc; p++ {
 		wg.Add(1)
 		go func(p int) {
 			defer wg.Done()
-			time.Sleep(time.Duration(r.Intn(3)) * time.Millisecond)
+			time.Sleep(time.Duration(delays[p]) * time.Millisecond)
+			if staged && p > 0 {
+				select {
+				case <-firstHalf:
+				case <-time.After(2 * time.Second):
+				}
+			}
 			cmd := exec.Command(w.lfs, cmds[p]...)
 			cmd.Dir = w.dir
 			cmd.Env = append(os.Environ(), w.env...)
@@ -709,7 +741,10 @@ func c02ConcurrentOne(c *Ctx, r *Rng, idx int) {
 	for p := range cmds {
 		cl = append(cl, fmt.Sprintf("%s->%d", strings.Join(cmds[p], " "), codes[p]))
 	}
-	enc := fmt.Sprintf("C02 concurrent seed=%d idx=%d objects=%d cut-first=%d stall=%v procs=[%s]", c.Seed, idx, nobj, cutFirst, stall, strings.Join(cl, "; "))
+	enc := fmt.Sprintf("C02 concurrent seed=%d idx=%d objects=%d cut-first=%d stall=%v staged=%v range=%s cut-early-others=%v procs=[%s]", c.Seed, idx, nobj, cutFirst, stall, staged, rangeMode, cutEarlyOthers, strings.Join(cl, "; "))
+	if staged {
+		c.R.Count("concurrent.staged." + rangeMode)
+	}
 	c.R.Eval(enc, true)
 	c.R.Count(fmt.Sprintf("concurrent.procs.%d", nproc))
 	if len(bad) > 0 {
